@@ -152,6 +152,7 @@ def add_constraint(v, w, y):
 @inited
 def prove():
     try:
+        qape.flush() # qapsplit re-reads the equation file
         qaplens,blklen,extlen,sigs = qapsplit.qapsplit()
 
         #print("qaplens", qaplens, "blklen", blklen, "extlen", extlen, "sigs", sigs)
